@@ -95,6 +95,14 @@ func (r *Run) Check(rule, key, pos string, ok bool, detail string) bool {
 		return ok
 	}
 	r.counts[rule]++
+	if ok {
+		// the detail texts describe the failure; keep only explicitly informational ones for discharged obligations
+		if strings.HasPrefix(detail, "info: ") {
+			detail = strings.TrimPrefix(detail, "info: ")
+		} else {
+			detail = ""
+		}
+	}
 	r.Obls = append(r.Obls, Obligation{Rule: rule, Key: key, Pos: pos, OK: ok, Detail: detail, Shared: r.importing})
 	if !ok {
 		r.Viols = append(r.Viols, Violation{Property: r.Prop, Kind: "rule-violation", Rule: rule, Key: key, Pos: pos, Detail: detail})
